@@ -8,7 +8,32 @@ ALGS = {0: ("md5", 64), 1: ("sha1", 64), 2: ("sha224", 64), 3: ("sha256", 64), 4
 _pat_cache = {}
 
 
+SPECIAL = (1000, 1001, 1002, 1003, 1004)
+
+
+def pick_seed(rng):
+    """chunk content class: mostly the pseudo-random pattern, sometimes content made of extreme words (carry chains in the word arithmetic)"""
+    return rng.choice(SPECIAL) if rng.random() < 0.3 else rng.randint(0, 255)
+
+
+def sbyte(i, seed):
+    if seed == 1000:
+        return 0xff
+    if seed == 1001:
+        return 0x00
+    if seed == 1002:
+        return 0x01 if i % 32 == 0 else 0xff
+    if seed == 1003:
+        return 0xff if (i // 4) % 2 == 0 else (0x01, 0x00, 0x00, 0x80)[i % 4]
+    return 0x80 if i % 64 == 63 else 0xff          # 1004
+
+
 def pattern(n, seed):
+    if seed >= 1000:
+        if n <= 4096:
+            return bytes(sbyte(i, seed) for i in range(n))
+        blk = bytes(sbyte(i, seed) for i in range(4096))      # all special patterns have a period dividing 4096
+        return (blk * (n // 4096 + 1))[:n]
     if n <= 1 << 20:
         return bytes(((seed * 131 + i * 7 + (i >> 8) * 13) & 0xff) for i in range(n))
     blk = pattern(65536, seed)
@@ -83,7 +108,7 @@ def skeleton_scenarios(ctx, alg, rng, cid):
             elif name == "HUpdate":
                 cid[0] += 1
                 n = 0 if args[1] == 0 else rng.choice([1, B - 1, B, B + 1, 2 * B + 1, rng.randint(1, 3 * B)])
-                s.upd(cid[0], n, rng.randint(0, 255))
+                s.upd(cid[0], n, pick_seed(rng))
             elif name == "HGet":
                 s.lines.append(rng.choice(["gets", "getd"]))
             elif name == "HReset":
@@ -109,12 +134,12 @@ def pair_scenarios(alg, rng, cid, quick):
             if l < 0:
                 continue
             s = Scen(alg)
-            cid[0] += 1; s.upd(cid[0], b, rng.randint(0, 255))
-            cid[0] += 1; s.upd(cid[0], l, rng.randint(0, 255))
+            cid[0] += 1; s.upd(cid[0], b, pick_seed(rng))
+            cid[0] += 1; s.upd(cid[0], l, pick_seed(rng))
             s.lines += ["gets", "getd"]
             cid[0] += 1; s.upd(cid[0], 5, 1)        # ignored: digest was read
             s.lines += ["gets", "len", "reset"]
-            cid[0] += 1; s.upd(cid[0], l, rng.randint(0, 255))
+            cid[0] += 1; s.upd(cid[0], l, pick_seed(rng))
             s.lines += ["getd", "free"]
             out.append(s)
     return out
@@ -146,7 +171,7 @@ def run(ctx):
             s = Scen(alg)
             for _ in range(rng.randint(2, 6)):
                 cid[0] += 1
-                s.upd(cid[0], rng.choice([0, 1, 1000, 4096, 65535, 65536, 70001]) if alg != 10 else rng.choice([0, 1, 31, 32, 33, 500]), rng.randint(0, 255))
+                s.upd(cid[0], rng.choice([0, 1, 1000, 4096, 65535, 65536, 70001]) if alg != 10 else rng.choice([0, 1, 31, 32, 33, 500]), pick_seed(rng))
             s.lines += ["gets", "free"]
             scens.append(s)
         if not ctx.quick and alg in (0, 1, 3, 5, 7):
